@@ -1,7 +1,9 @@
 """C04 — expression assignments never create a dependency cycle.
 
-Real side: an in-process hub (in-memory persistence) with real virtual ports, driven through the public entry points
-`core.api.funcs.ports.post_ports / delete_port / patch_port` (expression and enabled), `BasePort.set_attr('expression')`,
+Real side: an in-process hub (in-memory persistence) with real virtual ports and a few statically configured driver
+ports (non-virtual, writable: a tiny `core.ports.Port` subclass loaded with `core.ports.load`; DELETE refuses them and
+PUT /ports keeps them), driven through the public entry points
+`core.api.funcs.ports.post_ports / delete_port / patch_port / put_ports` (expression and enabled), `BasePort.set_attr('expression')`,
 `core.expressions.check_loops` and a restart (`save` + `remove(persisted_data=False)` + `core.vports.init()`).
 Model side: QtVerif.Model.Deps via Driver/C04.lean (same op sequence, expressions sent as parsed trees).
 Concurrency: `batch` ops start 2-3 assignments together (tasks created in the given order, gathered) on hubs where
@@ -10,12 +12,17 @@ evaluations, disabled ports); the result must be acyclic and equal to that of SO
 Oracle (independent of the model, evaluated on the real observations after every op):
   O1 the graph "p reads q" ($q occurs syntactically in get_expression() of p — walked over .args / .port_id, not taken
      from get_deps() —, q != p, both live) has no cycle;
-  O2 a refused assignment leaves every expression as it was;
+  O2 a refused assignment leaves every expression as it was (installed expression and `expression` attribute);
   O3 an accepted assignment installs exactly the candidate on that port and changes no other port;
   O4 an assignment / check_loops call is refused as circular  <=>  installing the candidate would close a cycle
      (Python reachability over the live graph before the op) — self references and dangling references never count;
   O5 the outcomes and expressions after a concurrent batch are those of some serial order (Python simulation of every
-     permutation over the graph before the batch).
+     permutation over the graph before the batch);
+  O6 PUT /ports replaces the configuration: the expressions of the ports that remain (the non-virtual ones) belong to
+     the configuration being replaced. Walking the document in order over the remaining ports WITHOUT expressions
+     (Python, real parser for the texts), the request is refused as circular exactly at the first entry whose
+     expression closes a cycle in the configuration restored so far — a cycle-free document is never refused as
+     circular —, and an accepted restore installs exactly the document.
 """
 import itertools
 import asyncio
@@ -25,6 +32,8 @@ import sys
 from harness.core import Failure, Prop
 
 POOL = ['p0', 'p1', 'p2', 'p3', 'p4', 'p5', 'p10', 'p1.x', 'a-b', '_t', 'Q', 'p01']
+# ids of the statically configured driver ports (never used for a virtual port); they sort among the virtual ids
+SPOOL = ['p2.s', 'a0', 'relay']
 # functions the corpus and the chain / ring scenarios name explicitly (asserted against the live registry)
 CORE_FUNCS = ['ADD', 'MUL', 'IF', 'MIN', 'NOT', 'ABS', 'SUB']
 # functions that are cheap to evaluate whatever their arguments: only these are used in cases that run with the hub's
@@ -266,6 +275,23 @@ class C04(Prop):
         self.core_ports, self.core_vports, self.core_api = core_ports, core_vports, core_api
         self.ce, self.api_ports = core_expressions, api_ports
         self.funcs = function_table()
+
+        class StaticPort(core_ports.Port):
+            """A statically configured (non-virtual) writable number port, as a peripheral driver supplies."""
+            TYPE = core_ports.TYPE_NUMBER
+            WRITABLE = True
+
+            def __init__(self, port_id):
+                super().__init__(port_id)
+                self._reg = 0
+
+            async def read_value(self):
+                return self._reg
+
+            async def write_value(self, value):
+                self._reg = value
+
+        self.StaticPort = StaticPort
         self.loop = asyncio.new_event_loop()
         asyncio.set_event_loop(self.loop)
         self.handler = FakeHandler(core_api.ACCESS_LEVEL_ADMIN)
@@ -346,6 +372,27 @@ class C04(Prop):
                                  ['restore', [['p0', None, ['t', v('p1'), 0]], ['p1', 0, ['t', c('MUL', v('p2'), li('2')), 2]],
                                               ['p2', 1, '']]], st('p2', v('p0')),
                                  ['restore', [['p1', None, ['bad', 0, 'p1']], ['p2', None, None]]]]},
+            # PUT /ports on a hub with driver ports (they remain): relay reads p0; the backup makes p0 read relay and gives
+            # relay another expression, entries in id order — cycle-free, must be restored in full; then a backup that
+            # does hold the cycle is refused at the entry closing it
+            {'ops': [['static', 'relay'], ['static', 'a0'], ['en', 'relay', 1], ['en', 'a0', 1], ['add', 'p0'],
+                     st('relay', c('ADD', v('p0'), li('1'))),
+                     ['restore', [['p0', 1, ['t', c('MUL', v('relay'), li('2')), 0]],
+                                  ['relay', 1, ['t', c('ADD', v('a0'), li('1')), 0]], ['a0', 1, '']]],
+                     ['restore', [['p0', 1, ['t', c('MUL', v('relay'), li('2')), 0]],
+                                  ['relay', 1, ['t', c('ADD', v('p0'), li('1')), 0]]]],
+                     ['del', 'relay'], ['del', 'p0']]},
+            # the same through a second driver port (relay -> a0 -> p0 before; p0 -> relay, relay -> p2.s, a0 -> p0 in the backup)
+            {'ops': [['static', 'relay'], ['static', 'a0'], ['static', 'p2.s'], ['add', 'p0'],
+                     st('a0', v('p0')), st('relay', c('ADD', v('a0'), li('1'))),
+                     ['restore', [['a0', None, ['t', c('ABS', v('p0')), 1]], ['p0', None, ['t', v('relay'), 0]],
+                                  ['relay', None, ['t', c('IF', li('1'), v('p2.s'), s), 2]], ['p2.s', 0, None]]],
+                     st('p2.s', v('a0')), ['unload', 'relay'], ['restore', [['relay', None, ['t', v('p0'), 0]], ['p0', None, ['t', v('a0'), 0]]]],
+                     ['static', 'relay'], ['reload']]},
+            # driver port reads itself and a virtual port; the backup keeps the self reference only
+            {'ops': [['static', 'a0'], ['add', 'p1'], st('a0', c('ADD', s, v('p1'))),
+                     ['restore', [['p1', None, ['t', c('ADD', v('a0'), li('1')), 0]], ['a0', None, ['t', c('MUL', s, li('2')), 0]]]],
+                     st('a0', v('p1'))]},
             # two halves of a 2-cycle submitted together, the first port is busy cancelling its value sequence
             {'ops': add('p0', 'p1') + [['seq', 'p0'], ['batch', [['set', 'p0', c('ADD', v('p1'), li('1')), 0],
                                                                   ['set', 'p1', c('MUL', v('p0'), li('2')), 0]]]]},
@@ -479,7 +526,7 @@ class C04(Prop):
             if r2 < 0.5:
                 do_load(c0)
             elif r2 < 0.7:
-                do_add(c0)
+                (do_static if c0 in SPOOL else do_add)(c0)
             elif r2 < 0.9:
                 ops.append(['reload'])
                 for i in list(stash):
@@ -528,8 +575,29 @@ class C04(Prop):
                 else:
                     shadow_set(sub[1], sub[2])
 
-        for i in ids[:rng.randint(max(2, len(ids) - 3), len(ids))]:
-            do_add(i)
+        def do_static(i):
+            ops.append(['static', i])
+            if i not in live and len(live) < MAX_PORTS:
+                live.append(i)
+                graph.pop(i, None)
+                trees.pop(i, None)
+                if i in stash:
+                    t = stash.pop(i)
+                    if t is not None:
+                        shadow_set(i, t)
+
+        first = ids[:rng.randint(max(2, len(ids) - 3), len(ids))]
+        statics = rng.sample(SPOOL, rng.choice([0, 0, 1, 2, 2, 3]))
+        if statics:
+            first = first[:max(1, MAX_PORTS - len(statics) - rng.randint(0, 2))]
+        boot = [(do_add, i) for i in first] + [(do_static, i) for i in statics]
+        if rng.random() < 0.5:
+            rng.shuffle(boot)
+        for f, i in boot:
+            f(i)
+        for i in statics:           # a driver port starts disabled
+            if rng.random() < 0.7:
+                ops.append(['en', i, 1])
         scenario = rng.random()
         if scenario < 0.35 and len(live) >= 3:
             # chain in random assignment order, then try to close it
@@ -554,52 +622,101 @@ class C04(Prop):
                     shadow_set(chain[j], t)
         while len(ops) < nops:
             r = rng.random()
-            if r < 0.08:
-                do_add(rng.choice(ids))
-            elif r < 0.13 and live:
+            if r < 0.07:
+                if rng.random() < 0.85:
+                    do_add(rng.choice(ids))
+                else:
+                    do_static(rng.choice(SPOOL))
+            elif r < 0.11 and live:
                 i = rng.choice(live + ['nosuch'])
                 ops.append(['del', i])
-                if i in live:
+                if i in live and i not in SPOOL:        # DELETE refuses a driver port
                     live.remove(i)
                     graph.pop(i, None)
-            elif r < 0.19 and live:
+            elif r < 0.16 and live:
                 ops.append(['en', rng.choice(live), rng.choice([0, 0, 1])])
-            elif r < 0.23 and live:
+            elif r < 0.20 and live:
                 i = rng.choice(live)
                 ops.append(['clr', i])
                 graph.pop(i, None)
-            elif r < 0.27 and live:
+            elif r < 0.23 and live:
                 ops.append(['setbad', rng.choice(live + ['nosuch']), rng.randrange(len(BAD)), rng.choice(live)])
-            elif r < 0.30:
+            elif r < 0.26:
                 ops.append(['reload'])
-            elif r < 0.40 and len(live) >= 2:
+                for i in list(stash):
+                    t = stash.pop(i)
+                    live.append(i)
+                    if t is not None:
+                        shadow_set(i, t)
+            elif r < 0.35 and len(live) >= 2:
                 do_batch()
-            elif r < 0.44 and live:
+            elif r < 0.39 and live:
                 do_partial()
-            elif r < 0.46 and live:
+            elif r < 0.41 and live:
                 do_unload(rng.choice(live))
-            elif r < 0.48 and stash:
+            elif r < 0.43 and stash:
                 do_load(rng.choice(sorted(stash)))
-            elif r < 0.325:
-                # PUT /ports: either a faithful backup of the (shadow) hub, or a random description
+            elif r < 0.50:
+                # PUT /ports: a faithful backup of the (shadow) hub, a backup that turns an edge of a driver port
+                # round, or a random description
                 entries = []
-                if rng.random() < 0.4:
+                flavour = rng.random()
+                turn = [(p0, q0) for p0 in live if p0 in SPOOL and p0 in graph for q0 in sorted(graph[p0])
+                        if q0 in live and q0 != p0]
+                if flavour < 0.45 and turn:
+                    # driver port p0 currently reads q0; the backup makes q0 read p0 and gives p0 another expression
+                    p0, q0 = rng.choice(turn)
+                    rd = ['v', p0]
+                    tq = rng.choice([rd, ['c', 'MUL', [rd, ['l', '2']]],
+                                     ['c', 'IF', [['l', '1'], ['c', 'ADD', [rd, ['l', '1']]], ['s']]]])
+                    others = [x for x in live if x not in (p0, q0)]
+                    r3 = rng.random()
+                    if r3 < 0.2:
+                        tp = trees.get(p0) or ['v', q0]         # unchanged: the document itself holds the cycle
+                    elif r3 < 0.6 and others:
+                        tp = ['c', 'ADD', [['v', rng.choice(others)], ['l', '1']]]
+                    elif r3 < 0.8:
+                        tp = ['c', 'SUB', [['s'], ['l', '1']]]
+                    else:
+                        tp = None                               # drawn against the document graph, below
+                    pair = [[q0, rng.choice([None, 1]), ['t', tq, rng.randrange(4)]],
+                            [p0, rng.choice([None, 1]), ['t', tp, rng.randrange(4)]]]
+                    if rng.random() < 0.2:
+                        pair.reverse()
+                    rest = []
+                    for i in rng.sample(others, rng.randint(0, len(others))):
+                        rest.append([i, rng.choice([None, 0, 1]),
+                                     ['t', trees[i], 0] if i in trees and i in graph and rng.random() < 0.7 else
+                                     rng.choice(['', None])])
+                    r4 = rng.random()
+                    if r4 < 0.4:
+                        entries = sorted(pair + rest, key=lambda en: en[0]) if pair[0][0] < pair[1][0] else pair + rest
+                    elif r4 < 0.7:
+                        entries = pair + rest
+                    else:
+                        k = rng.randint(0, len(rest))
+                        entries = rest[:k] + pair + rest[k:]
+                elif flavour < 0.7:
                     for i in live:
                         entries.append([i, rng.choice([None, 0, 1]), ['t', trees[i], 0] if i in trees and i in graph else ''])
-                    if rng.random() < 0.5:
+                    r4 = rng.random()
+                    if r4 < 0.4:
                         rng.shuffle(entries)
-                live[:], newg = [], {}
+                    elif r4 < 0.7:
+                        entries.sort(key=lambda en: en[0])      # the order GET /ports lists them in
+                kept = [i for i in live if i in SPOOL]          # the driver ports remain, without expression
+                live[:] = kept
                 graph.clear()
                 trees.clear()
-                n_extra = rng.randint(0, 5) if entries else rng.randint(1, 7)
+                n_extra = rng.randint(0, 4) if entries else rng.randint(1, 7)
                 aborted = False
                 for _ in range(n_extra):
-                    i = rng.choice(ids)
+                    i = rng.choice(ids + kept)
                     r2 = rng.random()
                     entries.append([i, rng.choice([None, None, 0, 1]), None if r2 < 0.15 else '' if r2 < 0.25 else
                                     ['bad', rng.randrange(len(BAD)), rng.choice(ids)] if r2 < 0.30 else ['t', None, rng.randrange(4)]])
                 for en in entries:      # replay on the shadow, drawing the random trees against the shadow graph so far
-                    if aborted:
+                    if aborted or (en[0] in SPOOL and en[0] not in live):
                         if isinstance(en[2], list) and en[2][0] == 't' and en[2][1] is None:
                             en[2][1] = ['l', '1']
                         continue
@@ -621,7 +738,8 @@ class C04(Prop):
                             graph[en[0]] = set(refs)
                             trees[en[0]] = ex[1]
                 ops.append(['restore', entries])
-            elif r < 0.42 and live:
+                stash.clear()
+            elif r < 0.56 and live:
                 i = rng.choice(live)
                 ops.append(['check', i, candidate(i), rng.randrange(4)])
             elif live:
@@ -688,7 +806,8 @@ class C04(Prop):
             for port in list(self.core_ports.get_all()):
                 await port.disable()        # cancels a running value sequence
                 await port.remove()
-                await self.core_vports.remove(port.get_id())
+                if isinstance(port, self.core_vports.VirtualPort):
+                    await self.core_vports.remove(port.get_id())
             await self.core_vports.reset()
             await self.core_ports.reset()
             await asyncio.sleep(0)
@@ -701,6 +820,8 @@ class C04(Prop):
                 return 'no-such-port'
             if e.status == 400 and e.code == 'duplicate-port':
                 return 'duplicate-port'
+            if e.status == 400 and e.code == 'port-not-removable':
+                return 'not-removable'
             if e.status == 400 and e.code == 'invalid-field' and e.params.get('field') == 'expression':
                 reason = (e.params.get('details') or {}).get('reason')
                 return 'circular' if reason == 'circular-dependency' else 'parse-error'
@@ -737,7 +858,7 @@ class C04(Prop):
                     attr_c = 'unparsable:' + attr
             deps = sorted(self._syn_refs(expr)) if expr else []
             snap[pid] = {'enabled': 1 if port.is_enabled() else 0, 'expr': str(expr) if expr else '-',
-                         'attr': attr_c, 'deps': deps}
+                         'attr': attr_c, 'deps': deps, 'virtual': isinstance(port, self.core_vports.VirtualPort)}
         return snap
 
     def _candidate_info(self, pid, text):
@@ -796,7 +917,9 @@ class C04(Prop):
         except Exception as e:  # noqa
             return self._err(e)
 
-    def _vargs(self, pid):
+    def _pargs(self, pid):
+        if pid in SPOOL:
+            return {'driver': self.StaticPort, 'port_id': pid}
         return {'driver': self.core_vports.VirtualPort, 'id_': pid, 'type_': 'number', 'min_': None, 'max_': None,
                 'integer': None, 'step': None, 'choices': None}
 
@@ -823,14 +946,26 @@ class C04(Prop):
                 settings = self.settings
                 settings.core.backup_support, settings.slaves.enabled = True, False
             out = 'ok'
+            entries = refused_id = None
             try:
                 if kind in ('del', 'reload', 'restore', 'unload'):
                     await self._quiesce()
                 if kind == 'add':
-                    if len(before) >= MAX_PORTS and op[1] not in before:
-                        out = 'skipped'
+                    if (len(before) >= MAX_PORTS and op[1] not in before) or op[1] in SPOOL:
+                        out = 'skipped'         # (the ids of the driver ports are never used for virtual ports)
                     else:
                         await api.post_ports(h, {'id': op[1], 'type': 'number'})    # loads a kept record, if any
+                        if op[1] in stash:
+                            stash.remove(op[1])
+                elif kind == 'static':
+                    # a driver port, as the hub loads the ports of its configuration file at start-up (disabled, unless
+                    # a persisted record says otherwise)
+                    if op[1] not in SPOOL or (len(before) >= MAX_PORTS and op[1] not in before):
+                        out = 'skipped'
+                    elif op[1] in before:
+                        out = 'duplicate-port'
+                    else:
+                        await self.core_ports.load([self._pargs(op[1])])
                         if op[1] in stash:
                             stash.remove(op[1])
                 elif kind == 'del':
@@ -859,8 +994,15 @@ class C04(Prop):
                             out = 'loop'
                 elif kind == 'restore':
                     stash = []          # put_ports clears every persisted port record (core.ports.reset)
+                    # an entry naming a driver port that is not there would be taken for a new virtual port: left out
+                    entries = [en for en in op[1] if not (en[0] in SPOOL and en[0] not in before)]
+                    cand = [self._candidate_info(en[0], self.entry_text(en)) if self.entry_text(en) else None
+                            for en in entries]
                     try:
-                        await api.put_ports(h, [self.entry_json(en) for en in op[1]])
+                        await api.put_ports(h, [self.entry_json(en) for en in entries])
+                    except self.core_api.APIError as e:
+                        refused_id = e.params.get('id')
+                        raise
                     finally:
                         if not case.get('eval', True):
                             self.core_main.disable_updating()       # put_ports switches it back on when it is done
@@ -890,7 +1032,7 @@ class C04(Prop):
                         out = 'no-such-port'
                     else:
                         stash.remove(op[1])
-                        await self.core_ports.load([self._vargs(op[1])])
+                        await self.core_ports.load([self._pargs(op[1])])
                 elif kind == 'reload':
                     # restart: every port is saved and dropped, then registered ports are loaded again in registration
                     # order, followed by the absent ones that still have a persisted record
@@ -900,7 +1042,7 @@ class C04(Prop):
                     for port in list(self.core_ports.get_all()):
                         await port.remove(persisted_data=False)
                     stash = []
-                    await self.core_ports.load([self._vargs(i) for i in order])
+                    await self.core_ports.load([self._pargs(i) for i in order])
                 else:
                     raise ValueError(kind)
             except Exception as e:  # noqa
@@ -908,6 +1050,8 @@ class C04(Prop):
             await self._quiesce()
             after = await self._snapshot()
             obs.append({'out': out, 'before': before, 'after': after, 'cand': cand})
+            if kind == 'restore':
+                obs[-1].update(entries=entries if entries is not None else [], refused_id=refused_id)
             if find_cycle({p: d['deps'] for p, d in after.items()}, set(after)):
                 break       # the property is already broken (the oracle reports it); do not drive a cyclic hub further
         return obs
@@ -923,6 +1067,8 @@ class C04(Prop):
                 out = 'skipped'
             elif kind == 'add':
                 out = driver.ask(f'add {op[1]}')
+            elif kind == 'static':
+                out = driver.ask(f'static {op[1]}')
             elif kind == 'del':
                 out = driver.ask(f'del {op[1]}')
             elif kind == 'en':
@@ -936,7 +1082,7 @@ class C04(Prop):
             elif kind == 'check':
                 out = driver.ask(f'check {op[1]} ' + ' '.join(tokens(op[2])))
             elif kind == 'restore':
-                out = driver.ask('restore' + ''.join(' ; ' + self.entry_tokens(en) for en in op[1]))
+                out = driver.ask('restore' + ''.join(' ; ' + self.entry_tokens(en) for en in ob['entries']))
             elif kind in ('unload', 'load'):
                 out = driver.ask(f'{kind} {op[1]}')
             elif kind == 'seq':
@@ -1065,6 +1211,11 @@ class C04(Prop):
                 prop_fail(idx, 'dependency cycle among live ports afterwards: ' + ' -> '.join(cyc))
             exprs_b = {p: d['expr'] for p, d in before.items()}
             exprs_a = {p: d['expr'] for p, d in after.items()}
+            stale = sorted(p for p, d in after.items() if d['attr'] != d['expr'])
+            if stale:
+                prop_fail(idx, 'the expression attribute does not show the installed expression (a refused assignment '
+                               'must leave the previous expression in place): '
+                               + ', '.join(f'{p}: attribute {after[p]["attr"]!r}, installed {after[p]["expr"]!r}' for p in stale))
             if kind in ('set', 'seta', 'setbad', 'check'):
                 pid = op[1]
                 would = None
@@ -1107,6 +1258,10 @@ class C04(Prop):
                         # O2
                         if exprs_a != exprs_b:
                             prop_fail(idx, f'refused ({out}) but expressions changed: {exprs_b} -> {exprs_a}')
+                        attrs_b = {p: d['attr'] for p, d in before.items()}
+                        attrs_a = {p: d['attr'] for p, d in after.items()}
+                        if attrs_a != attrs_b:
+                            prop_fail(idx, f'refused ({out}) but the expression attribute changed: {attrs_b} -> {attrs_a}')
                         if out == 'circular':
                             n_circ += 1
                             if would is False:
@@ -1136,7 +1291,10 @@ class C04(Prop):
                 pass
             elif kind == 'restore':
                 tags.add(f'restore-{len(op[1])}-entries')
-            elif kind in ('en', 'add', 'del', 'reload', 'clr', 'unload', 'load'):
+                self._restore_oracle(idx, ob, tags, prop_fail)
+                if out == 'circular':
+                    n_circ += 1
+            elif kind in ('en', 'add', 'static', 'del', 'reload', 'clr', 'unload', 'load'):
                 keep = {p: e for p, e in exprs_b.items() if p in exprs_a and not (kind == 'clr' and p == op[1])}
                 if {p: exprs_a[p] for p in keep} != keep and out in ('ok', 'skipped', 'no-such-port', 'duplicate-port'):
                     prop_fail(idx, f'{kind} changed installed expressions: {exprs_b} -> {exprs_a}')
@@ -1162,6 +1320,59 @@ class C04(Prop):
             key = repr(([o['out'] for o in obs], final))
         observed = {'outcomes': [o['out'] for o in obs], 'final': final}
         return fail, {'tags': sorted(tags), 'key': key, 'observed': observed}
+
+    def _restore_oracle(self, idx, ob, tags, prop_fail):
+        """O6. PUT /ports replaces the whole configuration: what the ports that remain (the non-virtual ones) held
+        belongs to the configuration being replaced. The document is walked in order, in Python, over the remaining ports
+        without expressions: the first entry whose text the real parser refuses, or whose `$id` references close a
+        cycle in the configuration restored so far, is where the request must stop — with that error, for that port —
+        and nowhere else; a restore that is accepted must have installed exactly the document."""
+        out, before, after = ob['out'], ob['before'], ob['after']
+        live = {p for p, d in before.items() if not d['virtual']}
+        if live:
+            tags.add('restore:driver-ports-remain')
+            if any(before[p]['deps'] for p in live):
+                tags.add('restore:remaining-port-had-expression')
+        graph = {p: [] for p in live}
+        exprs = {p: '-' for p in live}
+        expected, at = 'ok', None
+        for en, c0 in zip(ob['entries'], ob['cand']):
+            pid = en[0]
+            if pid not in live:
+                live.add(pid)
+                graph[pid], exprs[pid] = [], '-'
+            text = self.entry_text(en)
+            if text is None:
+                continue
+            if text == '':
+                graph[pid], exprs[pid] = [], '-'
+            elif c0 is None:
+                expected, at = 'parse-error', pid
+                break
+            elif any(q != pid and q in live and reaches(graph, live, q, pid) for q in c0[1]):
+                expected, at = 'circular', pid
+                break
+            else:
+                if any(q != pid and q in before and not before[q]['virtual'] and reaches(
+                        {p: d['deps'] for p, d in before.items()}, set(before), q, pid) for q in c0[1]):
+                    tags.add('restore:entry-reads-port-whose-old-expression-read-it')
+                graph[pid], exprs[pid] = list(c0[1]), c0[0]
+        if out == 'circular' and expected != 'circular':
+            prop_fail(idx, f'PUT /ports refused the entry of {ob["refused_id"]!r} as circular although the configuration '
+                           f'being restored closes no cycle there (document graph so far: {graph}; the walk expects {expected!r}'
+                           + (f' at {at!r}' if at else '') + ')')
+        elif out == 'circular' and ob['refused_id'] != at:
+            prop_fail(idx, f'PUT /ports refused the entry of {ob["refused_id"]!r} as circular; the first entry that closes a '
+                           f'cycle in the configuration being restored is that of {at!r}')
+        elif expected == 'circular' and out == 'ok':
+            prop_fail(idx, f'PUT /ports accepted a document whose entry for {at!r} closes a cycle')
+        elif expected == 'circular' and out != 'circular':
+            prop_fail(idx, f'cycle-closing entry for {at!r} refused with {out!r}, not with circular-dependency')
+        elif out == 'ok' and expected == 'ok':
+            exprs_a = {p: d['expr'] for p, d in after.items()}
+            if exprs_a != exprs:
+                prop_fail(idx, f'PUT /ports accepted, but the expressions afterwards are {exprs_a}, the document says {exprs}')
+        tags.add(f'restore-expected:{expected}')
 
     @staticmethod
     def _serial_results(subs, cand, before):
